@@ -980,6 +980,13 @@ impl<'de> serde::de::Visitor<'de> for ParsedValueSeed<'_> {
     where
         E: serde::de::Error,
     {
+        // NaN and infinities (`.inf`, `.nan` in YAML) can't be turned into tokens.
+        if !v.is_finite() {
+            return Err(serde::de::Error::invalid_value(
+                serde::de::Unexpected::Float(v),
+                &"a finite number",
+            ));
+        }
         Ok(ParsedValue::Literal(Literal::Float(v)))
     }
 
